@@ -862,6 +862,118 @@ def gen_tempoparts(kinds=None, single_kinds=None, triples=TEMPO_TRIPLES):
                 i += 1
 
 
+# ---------------------------------------------------------------------------------------------
+# written pitch spellings (sub-space spelling)
+
+STEP_NAMES = "CDEFGAB"
+_STEP_PC = {"C": 0, "D": 2, "E": 4, "F": 5, "G": 7, "A": 9, "B": 11}
+LOF_STEPS = "FCGDAEB"
+SPELL_ALTERS = (-2, -1, None, 0, 1, 2)
+# scale degrees 1..7 (ascending) as offsets on the line of fifths from the tonic
+SCALES = {
+    "major": (0, 2, 4, -1, 1, 3, 5),
+    "harmonic-minor": (0, 2, -3, -1, 1, -4, 5),
+    "melodic-minor": (0, 2, -3, -1, 1, 3, 5),
+    "natural-minor": (0, 2, -3, -1, 1, -4, -2),
+}
+# the passage played in every key, in scale degrees counted from the tonic (0 = tonic, 7 = its octave, -1 = the
+# degree below the tonic): scale up and down, the triad as arpeggio, leading note and tonic
+PASSAGE = tuple(range(0, 8)) + tuple(range(6, 0, -1)) + (0, 2, 4, 7, 4, 2, 0, -1, 0)
+
+
+def lof_spelling(k):
+    """(step, alter) of position k on the line of fifths (F = -1, C = 0, G = 1, ..., F# = 6, Bb = -2)"""
+    return LOF_STEPS[(k + 1) % 7], (k + 1) // 7
+
+
+def snote(nid, s, e, step, alter, octv, voice=1, tie=None):
+    """a note with an explicitly written spelling (alter None and 0 both mean natural)"""
+    o = {"k": "note", "id": nid, "s": s, "e": e, "step": step, "alter": alter, "oct": octv, "voice": voice, "staff": 1}
+    if tie is not None:
+        o["tie"] = tie
+    return o
+
+
+def crosses_octave(step, alter):
+    """the written spelling names a pitch outside the octave of its step (B sharp, C flat, ...)"""
+    return not 0 <= _STEP_PC[step] + (alter or 0) <= 11
+
+
+def key_passage(fifths, scale, tonic_octave):
+    """[(step, alter, octave)] of PASSAGE in the key with `fifths` accidentals, spelled as scale degrees"""
+    k0 = fifths if scale == "major" else fifths + 3
+    tstep, _ = lof_spelling(k0)
+    d0 = 7 * tonic_octave + STEP_NAMES.index(tstep)  # diatonic number of the tonic
+    out = []
+    for deg in PASSAGE:
+        step, alter = lof_spelling(k0 + SCALES[scale][deg % 7])
+        dn = d0 + deg
+        if STEP_NAMES[dn % 7] != step:
+            raise AssertionError("scale table: degree %d of %s is not a %s" % (deg, scale, STEP_NAMES[dn % 7]))
+        out.append((step, alter, dn // 7))
+    return out
+
+
+def _spelling_part(objs_notes, total, d, fifths=None, mode=None):
+    objs = [ts(0, 4, 4)] + bars_cover(total, 4 * d)
+    if fifths is not None:
+        objs.append(ks(0, fifths, mode))
+    return {"parts": [part("P1", [(0, d)], objs + objs_notes)]}
+
+
+def gen_spelling(tonic_octaves=(2, 4), scales=("major", "harmonic-minor"), registers=(5,)):
+    """written pitch spellings, one voice, 4/4, divisions 2, no two notes at one time:
+    (a) alphabet: every step x alter of SPELL_ALTERS, the note in every octave -1..9 whose MIDI pitch is in
+        0..127, ascending, one quarter each (every second one written as two tied eighths);
+    (b) enharmonic: for every pitch class all its spellings (alter -2..2) of one MIDI pitch, touching;
+    (c) keys: PASSAGE in every key signature -7..7 x scale x tonic octave, written (i) spelled as scale degrees
+        with the key signature, (ii) the same MIDI pitches spelled with naturals and sharps only (no written note
+        crosses an octave: the spellings B sharp / C flat can then only come from the importer)."""
+    d = 2
+    for step in STEP_NAMES:
+        for alter in SPELL_ALTERS:
+            objs = []
+            t = 0
+            for octv in range(-1, 10):
+                if not 0 <= midi_pitch(step, alter, octv) <= 127:
+                    continue
+                if (t // 2) % 2 == 1:
+                    objs.append(snote("a%dx" % octv, t, t + 1, step, alter, octv, 1, "a%dy" % octv))
+                    objs.append(snote("a%dy" % octv, t + 1, t + 2, step, alter, octv, 1))
+                else:
+                    objs.append(snote("a%d" % octv, t, t + 2, step, alter, octv, 1))
+                t += 2
+            yield dict(score=_spelling_part(objs, t, d), tag="spelling alphabet step=%s alter=%r" % (step, alter), spelling=1)
+    for reg in registers:
+        for pc in range(12):
+            m = 12 * reg + pc
+            if m > 127:
+                continue
+            objs = []
+            t = 0
+            for step in STEP_NAMES:
+                for alter in (-2, -1, 0, 1, 2):
+                    if (_STEP_PC[step] + alter - pc) % 12 == 0:
+                        octv = (m - _STEP_PC[step] - alter) // 12 - 1
+                        objs.append(snote("e%d" % len(objs), t, t + 2, step, alter or None, octv, 1))
+                        t += 2
+            yield dict(score=_spelling_part(objs, t, d), tag="spelling enharmonic midi=%d" % m, spelling=1)
+    for fifths in range(-7, 8):
+        for scale in scales:
+            for to in tonic_octaves:
+                sp = key_passage(fifths, scale, to)
+                for writing in ("degrees", "sharps"):
+                    objs = []
+                    for i, (step, alter, octv) in enumerate(sp):
+                        if writing == "degrees":
+                            objs.append(snote("k%d" % i, i, i + 1, step, alter or None, octv, 1))
+                        else:
+                            objs.append(note("k%d" % i, i, i + 1, midi_pitch(step, alter, octv), 1))
+                    yield dict(score=_spelling_part(objs, len(sp), d, fifths, "major" if scale == "major" else "minor"),
+                               tag="spelling key fifths=%d %s tonic-octave=%d written=%s" % (fifths, scale, to, writing),
+                               spelling=1)
+
+
 def option_scores():
     """three representative scores for the option product"""
     out = []
